@@ -249,6 +249,55 @@ def _check_inherited(case):
         shutil.rmtree(d, ignore_errors=True)
 
 
+def _moved_cases(tier, seed):
+    for fmt in ('epytext', 'restructuredtext'):
+        for k in ((0, 2) if tier == 'quick' else (0, 1, 2, 6)):
+            yield {'fmt': fmt, 'k': k, 'reexport_and_types': True}
+
+
+def _check_moved(case):
+    """(1) a problem in the docstring of a re-exported object still names the file that contains the text;
+    (2) with --process-types an unresolvable name in a type field is reported at the line of that field"""
+    from pydoctor import driver
+    ep = case['fmt'] == 'epytext'
+    link = (lambda n: f'L{{{n}}}') if ep else (lambda n: f'`{n}`')
+    tfield = (lambda name, n: f'@type {name}: {n}') if ep else (lambda name, n: f':type {name}: {n}')
+    pfield = (lambda name: f'@param {name}: the value') if ep else (lambda name: f':param {name}: the value')
+    impl = ('\n' * case['k'] + 'class Moved:\n    """\n    A class that the package re-exports.\n\n    See ' + link('missing_moved') + '.\n    """\n'
+            '    def meth(self, a, b):\n        """\n        Method.\n\n        ' + pfield('a') + '\n        ' + tfield('a', 'missing_type_a') + '\n        ' + pfield('b') + '\n        '
+            + tfield('b', 'dict of str to\n            missing_type_b') + '\n        ' + ('@rtype: missing_ret' if ep else ':rtype: missing_ret') + '\n        """\n'
+            'def moved_func():\n    """\n    Function.\n\n    More ' + link('missing_func') + '\n    """\n')
+    init = 'from ._impl import Moved, moved_func\n__all__ = ["Moved", "moved_func"]\n'
+    d = tempfile.mkdtemp(prefix='c16.', dir='/var/tmp')
+    try:
+        os.makedirs(os.path.join(d, 'pk'))
+        for name, text in (('__init__.py', init), ('_impl.py', impl)):
+            with open(os.path.join(d, 'pk', name), 'w') as f:
+                f.write(text)
+        out = io.StringIO()
+        with contextlib.redirect_stdout(out), contextlib.redirect_stderr(io.StringIO()):
+            try:
+                driver.main(['--html-output', os.path.join(d, 'out'), '--docformat', case['fmt'], '--project-name', 'p', '--process-types',
+                             os.path.join(d, 'pk')])
+            except SystemExit:
+                pass
+        fails = []
+        for needle in ('missing_moved', 'missing_func', 'missing_type_a', 'missing_type_b', 'missing_ret'):
+            want = next(i for i, l in enumerate(impl.splitlines(), 1) if needle in l)
+            first = want - 1 if needle == 'missing_type_b' else want        # the field starts on the line above the continuation line
+            msgs = [l for l in out.getvalue().splitlines() if needle in l and 'Cannot find link target' in l]
+            if not msgs:
+                fails.append({'observed': f'no message about {needle}', 'required': 'the problem is reported', 'class': 'moved-missing:' + needle})
+            for l in msgs:
+                m = re.match(r'(.*?):(\d+|\?\?\?): ', l)
+                if not m or not m.group(1).endswith('_impl.py') or m.group(2) not in (str(first), str(want)):
+                    fails.append({'observed': f'{needle}: reported as {l[:130]!r}', 'required': f'_impl.py:{first}..{want} (the file and line that hold the field / the name)',
+                                  'class': 'moved-location:' + needle})
+        return fails or None
+    finally:
+        shutil.rmtree(d, ignore_errors=True)
+
+
 HARNESS = {
     f'{U}:extract_docstring_linenum': {'cases': _lin_cases, 'check': _check_lin,
         'covers': [f'{U}:extract_docstring', f'{M}:Documentable.setDocstring'],
@@ -261,6 +310,9 @@ HARNESS = {
     'pydoctor/epydoc/markup/restructuredtext.py:_SplitFieldsTranslator': {'cases': _block_cases, 'check': _check_block,
         'bound': '8 multi-line constructs (consolidated fields as definition/bullet lists, :param:/@param fields, paragraphs, list items, google/numpy sections) x 2 offsets x {function, method}'},
     f'{D}:main': {'cases': _exit_cases, 'check': _check_exit, 'bound': '4 problem kinds x {-W, no -W}, real runs'},
+    f'{M}:Documentable.description': {'cases': _moved_cases, 'check': _check_moved,
+        'bound': 'a re-exported class and function with unresolvable links, and type fields with unresolvable names under --process-types; '
+                 '2 formats x 2 (4) vertical offsets, real runs'},
     f'{E}:format_docstring': {'cases': _inh_cases, 'check': _check_inherited,
         'bound': 'an unresolvable link in a docstring inherited by an overriding method of another file, and in the body of an @ivar/:ivar: field; '
                  '2 formats x 2 (4) vertical offsets, real runs'},
